@@ -24,6 +24,9 @@ ERROR_KINDS = {
     "utime": ["eacces_utime"],
     "write": ["eio_write", "enospc_write", "enospc_write_short", "eio_write_short", "interrupt_write"],
     "close": ["enospc_close", "eio_close", "interrupt_close"],
+    "replace": ["eacces_replace", "enospc_replace", "interrupt_replace"],
+    "rename": ["eacces_rename", "enospc_rename", "interrupt_rename"],
+    "unlink": ["eacces_unlink", "interrupt_unlink"],
 }
 
 
